@@ -151,9 +151,8 @@ Definition good_op (pmax : Z) (o : rop) : Prop :=
   | _ => True
   end.
 
-Lemma readback_cons f tl o n l m :
-  readback (mkState (f :: tl) o n l m) = readback (mkState tl o n l m) ++ f_msgs f.
-Proof. unfold readback. cbn [dir rev]. rewrite map_app, concat_app. cbn. rewrite app_nil_r. reflexivity. Qed.
+Lemma readback_of_cons f tl : readback_of (f :: tl) = readback_of tl ++ f_msgs f.
+Proof. unfold readback_of. cbn [rev]. rewrite map_app, concat_app. cbn. rewrite app_nil_r. reflexivity. Qed.
 
 Lemma do_rotate_inv pmax now h s : 0 <= h -> pmax < now -> Inv pmax s -> Inv pmax (do_rotate now h s).
 Proof.
@@ -168,7 +167,7 @@ Proof.
 Qed.
 
 Lemma do_rotate_readback now h s : readback (do_rotate now h s) = readback s.
-Proof. unfold do_rotate. rewrite readback_cons. cbn. rewrite app_nil_r. destruct s; reflexivity. Qed.
+Proof. unfold do_rotate, readback. cbn [dir]. rewrite readback_of_cons. cbn. apply app_nil_r. Qed.
 
 Lemma do_rotate_open now h s : is_open (do_rotate now h s) = true.
 Proof. reflexivity. Qed.
@@ -187,9 +186,14 @@ Qed.
 Lemma append_msg_readback id len s : dir s <> [] -> readback (append_msg id len s) = readback s ++ [id].
 Proof.
   intros H. unfold append_msg. destruct (dir s) as [|f tl] eqn:D; [congruence|].
-  rewrite readback_cons. cbn [f_msgs]. unfold readback at 2. rewrite D. cbn [rev].
-  rewrite map_app, concat_app. cbn. rewrite app_nil_r, app_assoc. reflexivity.
+  unfold readback. cbn [dir]. rewrite D, !readback_of_cons. cbn [f_msgs]. apply app_assoc.
 Qed.
+
+Lemma do_flush_inv pmax s : Inv pmax s -> Inv pmax (do_flush s).
+Proof. intros [A B C D]. constructor; assumption. Qed.
+
+Lemma do_flush_readback s : readback (do_flush s) = readback s.
+Proof. reflexivity. Qed.
 
 Lemma do_log_spec pmax n1 n2 h id len s :
   0 <= h -> pmax < n1 -> pmax < n2 -> 0 <= len -> Inv pmax s ->
@@ -204,8 +208,11 @@ Proof.
   assert (Inv pmax s2 /\ readback s2 = readback s /\ is_open s2 = true) as (I2 & R2 & O2).
   { subst s2. destruct (maxsz s1 <=? nbytes s1 + len); [|auto].
     split; [apply do_rotate_inv; assumption|]. split; [rewrite do_rotate_readback; assumption | reflexivity]. }
-  split; [apply append_msg_inv; assumption|].
-  rewrite append_msg_readback, R2; [reflexivity|]. apply (inv_open _ _ I2); assumption.
+  assert (Inv pmax (append_msg id len s2) /\ readback (append_msg id len s2) = readback s ++ [id]) as [I3 R3].
+  { split; [apply append_msg_inv; assumption|].
+    rewrite append_msg_readback, R2; [reflexivity|]. apply (inv_open _ _ I2); assumption. }
+  destruct (syncw (append_msg id len s2)); [|auto].
+  split; [apply do_flush_inv; assumption | rewrite do_flush_readback; assumption].
 Qed.
 
 Lemma firstn_sorted {A} (R : A -> A -> Prop) k : forall l, StronglySorted R l -> StronglySorted R (firstn k l).
@@ -231,7 +238,7 @@ Lemma do_gc_spec pmax b s : Inv pmax s ->
 Proof.
   intros [Srt Z1 St O]. unfold do_gc, gc. rewrite sort_desc_id by assumption.
   unfold gc_select. destruct (dir s) as [|n tl] eqn:D.
-  - split; [constructor; cbn; rewrite ?D; auto|]. exists []. unfold readback; cbn. rewrite D. reflexivity.
+  - split; [constructor; cbn; rewrite ?D; auto|]. exists []. unfold readback, readback_of; cbn. rewrite D. reflexivity.
   - inversion Z1 as [|? ? Zn Ztl]; subst.
     destruct (gc_loop_prefix b tl (f_size n) Ztl) as [k Hk]. rewrite Hk.
     change (n :: firstn k tl) with (firstn (S k) (n :: tl)).
@@ -242,7 +249,7 @@ Proof.
       * apply firstn_Forall; assumption.
       * discriminate.
     + exists (concat (map f_msgs (rev (skipn (S k) (n :: tl))))).
-      unfold readback. cbn [dir]. rewrite D.
+      unfold readback, readback_of. cbn [dir]. rewrite D.
       rewrite <- concat_app, <- map_app, <- rev_app_distr, firstn_skipn. reflexivity.
 Qed.
 
@@ -251,13 +258,16 @@ Lemma rstep_spec pmax h s o : 0 <= h -> good_op pmax o -> Inv pmax s ->
   exists dropped, dropped ++ readback (rstep h s o) = readback s ++ logged [o] /\
                   (no_gc [o] = true -> dropped = []).
 Proof.
-  intros Hh G I. destruct o as [n1 n2 id len | m | b |]; cbn [rstep logged no_gc].
+  intros Hh G I. destruct o as [n1 n2 id len | m | b | sy | |]; cbn [rstep logged no_gc].
   - destruct G as (G1 & G2 & G3).
     destruct (do_log_spec pmax n1 n2 h id len s Hh G1 G2 G3 I) as [I' R].
     split; [assumption|]. exists []. split; [exact R | reflexivity].
   - split; [destruct I; constructor; assumption|]. exists []. rewrite app_nil_r. split; reflexivity.
   - destruct (do_gc_spec pmax b s I) as [I' [d R]]. split; [assumption|].
     exists d. rewrite app_nil_r. split; [assumption | discriminate].
+  - split; [destruct I; destruct sy; constructor; assumption|].
+    exists []. rewrite app_nil_r. split; [destruct sy|]; reflexivity.
+  - split; [apply do_flush_inv; assumption|]. exists []. rewrite app_nil_r. split; reflexivity.
   - split; [assumption|]. exists []. rewrite app_nil_r. split; reflexivity.
 Qed.
 
@@ -296,6 +306,49 @@ Proof.
   eapply Forall_impl; [|exact St]. cbn; intros; lia.
 Qed.
 
+(** ** Buffering: Flush leaves nothing behind; sync mode writes through. *)
+Lemma on_disk_flushed s : ubytes s = 0 -> ucount s = 0%nat -> on_disk s = dir s.
+Proof.
+  intros B C. unfold on_disk. rewrite B, C. destruct (dir s) as [|f tl]; [reflexivity|].
+  rewrite Nat.sub_0_r, firstn_all, Z.sub_0_r. destruct f; reflexivity.
+Qed.
+
+Theorem flush_leaves_nothing_buffered s :
+  on_disk (do_flush s) = dir s /\ readback_disk (do_flush s) = readback s.
+Proof.
+  assert (on_disk (do_flush s) = dir s) as E by exact (on_disk_flushed (do_flush s) eq_refl eq_refl).
+  split; [exact E|]. unfold readback_disk. rewrite E. reflexivity.
+Qed.
+
+Definition SyncInv (s : lstate) : Prop := syncw s = true -> ubytes s = 0 /\ ucount s = 0%nat.
+
+Lemma syncw_do_rotate now h s : syncw (do_rotate now h s) = syncw s. Proof. reflexivity. Qed.
+Lemma syncw_append id len s : syncw (append_msg id len s) = syncw s.
+Proof. unfold append_msg. destruct (dir s); reflexivity. Qed.
+
+Lemma rstep_sync h s o : SyncInv s -> SyncInv (rstep h s o).
+Proof.
+  intros I. destruct o as [n1 n2 id len | m | b | sy | |]; cbn [rstep].
+  - unfold do_log.
+    match goal with |- SyncInv (if syncw ?x then _ else _) => destruct (syncw x) eqn:E end.
+    + intros _. split; reflexivity.
+    + intros C. congruence.
+  - exact I.
+  - exact I.
+  - destruct sy; [intros _; split; reflexivity | intros C; discriminate C].
+  - intros _. split; reflexivity.
+  - exact I.
+Qed.
+
+(** In sync mode every write is on disk as soon as the logging call returns. *)
+Theorem sync_mode_writes_through h ops : forall s, SyncInv s ->
+  SyncInv (rrun h s ops) /\ (syncw (rrun h s ops) = true -> on_disk (rrun h s ops) = dir (rrun h s ops)).
+Proof.
+  induction ops as [|o ops IH]; intros s I.
+  - split; [exact I|]. intros E. destruct (I E). apply on_disk_flushed; assumption.
+  - cbn [rrun fold_left]. apply IH. apply rstep_sync. exact I.
+Qed.
+
 Theorem rotation_lossless h m ops :
   0 <= h -> Forall (good_op 0) ops -> no_gc ops = true ->
   readback (rrun h (init_state [] m) ops) = logged ops.
@@ -304,6 +357,15 @@ Proof.
   destruct (rotation_gc_history 0 h Hh ops (init_state [] m) G) as (_ & d & R & N).
   - apply init_inv; constructor.
   - rewrite (N NG) in R. exact R.
+Qed.
+
+(** The property's wording: after a flush, what a reader of the files finds. *)
+Theorem rotation_lossless_after_flush h m ops :
+  0 <= h -> Forall (good_op 0) ops -> no_gc ops = true ->
+  readback_disk (do_flush (rrun h (init_state [] m) ops)) = logged ops.
+Proof.
+  intros Hh G NG. destruct (flush_leaves_nothing_buffered (rrun h (init_state [] m) ops)) as [_ ->].
+  apply rotation_lossless; assumption.
 Qed.
 
 (** GC never removes the file being written. *)
